@@ -27,7 +27,7 @@ pub fn check() -> Check {
     Check {
         property: "C14",
         level: "exploration",
-        rule: "all strings over the abstraction alphabet {CR, LF, x} up to length 8 (quick) / 10 (thorough), each under ALL chunkings (<= length 8; 64 sampled above) through the streaming hasher (SignatureConfig::into_hasher + io::Write, digest exposed by a recording SigningKey), through NormalizedReader under all read compositions, and through the in-memory normalization (LiteralData::from_str); plus long random strings with CR/LF/CRLF placed at the 512 B / 8 KiB internal buffer edges and at the very end, and DataMode::Utf8 accept/reject under read schedules. Oracles: chunking independence, equality with the reference canon(), digest kernel = canon kernel over the single-edit neighbourhood, real text signatures verify exactly on the LF<->CRLF class. Non-trivial: the string contains CR or LF; distinct = distinct (string, chunking) pairs evaluated, hashed.",
+        rule: "all strings over the abstraction alphabet {CR, LF, x} up to length 8 (quick) / 10 (thorough), each under ALL chunkings (<= length 8; 64 sampled above), each also with zero-length writes before / between / after the pieces, through the streaming hasher (SignatureConfig::into_hasher + io::Write, digest exposed by a recording SigningKey), through NormalizedReader under all read compositions, and through the in-memory normalization (LiteralData::from_str); plus long random strings with CR/LF/CRLF placed at the 512 B / 8 KiB internal buffer edges and at the very end, and DataMode::Utf8 accept/reject under read schedules. Oracles: chunking independence, equality with the reference canon(), digest kernel = canon kernel over the single-edit neighbourhood, real text signatures verify exactly on the LF<->CRLF class. Non-trivial: the string contains CR or LF; distinct = distinct (string, chunking) pairs evaluated, hashed.",
         families: vec![
             Family { name: "enum", gen: gen_enum, run: run_enum },
             Family { name: "long", gen: gen_long, run: run_long },
@@ -86,11 +86,19 @@ pub fn text_digest(rs: &RecordingSigner, s: &[u8], cuts: &[usize], typ: Signatur
     let cfg = SignatureConfig::v4(typ, rs.algorithm(), HashAlgorithm::Sha256);
     let mut h = cfg.into_hasher().map_err(|e| e.to_string())?;
     let mut pos = 0;
+    // (a repeated cut position, or a cut at 0 / at the end, is an empty piece: a zero-length write)
+    let piece = |h: &mut dyn Write, p: &[u8]| -> Result<(), String> {
+        if p.is_empty() {
+            h.write(p).map(|_| ()).map_err(|e| e.to_string())
+        } else {
+            h.write_all(p).map_err(|e| e.to_string())
+        }
+    };
     for &c in cuts {
-        h.write_all(&s[pos..c]).map_err(|e| e.to_string())?;
+        piece(&mut h, &s[pos..c])?;
         pos = c;
     }
-    h.write_all(&s[pos..]).map_err(|e| e.to_string())?;
+    piece(&mut h, &s[pos..])?;
     h.sign(rs, &Password::empty()).map_err(|e| e.to_string())?;
     Ok(rs.last.lock().unwrap().clone())
 }
@@ -158,6 +166,18 @@ fn run_enum(plan: &Value, rec: &mut Rec) {
                 rec.eval(h.0, nontrivial && m != 0);
                 if d != base {
                     return Err(format!("chunking {:?} of \"{show}\" changes the text-mode digest", cuts));
+                }
+                // the same chunking with a zero-length write before, between and after the pieces
+                let mut with_empty = vec![0usize];
+                for c in &cuts {
+                    with_empty.push(*c);
+                    with_empty.push(*c);
+                }
+                with_empty.push(n);
+                let d = text_digest(&rs, &s, &with_empty, SignatureType::Text)?;
+                rec.eval(h.0 ^ 0x5a5a, nontrivial);
+                if d != base {
+                    return Err(format!("chunking {:?} of \"{show}\" with zero-length writes in between changes the text-mode digest", cuts));
                 }
             }
             // (d) digest kernel == canon kernel on the single-edit neighbourhood
